@@ -330,6 +330,19 @@ func newStringDecoder() encoding2.DecodeCompiler[Value] {
 					}
 					return errors.WithStack(encoding2.ErrUnsupportedType)
 				}), nil
+			} else if typ.Elem().Kind() == reflect.Array && typ.Elem().Elem().Kind() == reflect.Uint8 {
+				return encoding2.DecodeFunc(func(source Value, target unsafe.Pointer) error {
+					if s, ok := source.(String); ok {
+						decode, err := base64.StdEncoding.DecodeString(s.String())
+						if err != nil {
+							return err
+						}
+						t := reflect.NewAt(typ.Elem(), target).Elem()
+						reflect.Copy(t, reflect.ValueOf(decode))
+						return nil
+					}
+					return errors.WithStack(encoding2.ErrUnsupportedType)
+				}), nil
 			} else if typ.Elem() == types[KindUnknown] {
 				return encoding2.DecodeFunc(func(source Value, target unsafe.Pointer) error {
 					if s, ok := source.(String); ok {
